@@ -3,6 +3,7 @@ package checks
 import (
 	"context"
 	"fmt"
+	"os"
 	"sort"
 	"strings"
 
@@ -313,7 +314,7 @@ func runC08(c *vk.Ctx) {
 	states := func() {}
 	_ = states
 	// (i) repository examples
-	for _, dir := range app.ExampleDirs("/repo") {
+	for _, dir := range app.ExampleDirs(repoDir()) {
 		name := "example:" + dir[strings.LastIndex(dir, "/")+1:]
 		for _, osz := range []uint32{0, 40, 160} {
 			mine := c.Mine(idx)
@@ -367,4 +368,12 @@ func runC08(c *vk.Ctx) {
 			c.Violate("shared-data-modified", err.Error(), key, map[string]interface{}{"app": a.Describe()})
 		}
 	}
+}
+
+// repoDir is the checkout under test (run.sh exports VERIF_REPO; default /repo).
+func repoDir() string {
+	if d := os.Getenv("VERIF_REPO"); d != "" {
+		return d
+	}
+	return "/repo"
 }
